@@ -79,6 +79,18 @@ def wbxml_cases(tj, rng, forcings_per_doc=None):
                 else:
                     orc = None          # forcing an unregistered id: the property is silent (model: error)
                 cases.append(dict(line="w %d 0 %s" % (f, doc.hex()), oracle=orc, kind="wbxml-" + route.split("-")[0], lang=l["id"], route=route, forced=f))
+    # wbxml_parser_set_main_table: the same documents against a custom table (standard entries reversed / without the
+    # first 5 / 12): model (select_lang is parametric in the table) vs C; the oracle speaks where the table order cannot
+    # matter (a forced language that is in the table)
+    nl = len(tj["langs"])
+    for c in list(cases):
+        if c["forced"] in (0, c["lang"]) and c["route"] in ("num-v3", "num-v0", "txt", "txt-lower", "txt-offset", "none", "txt-unknown", "txt-prefix0"):
+            for mode in ("rev", "drop5", "drop12"):
+                f, _, doc = c["line"].split(" ")[1:]
+                gone = {"rev": 0, "drop5": 5, "drop12": 12}[mode]
+                present = {l["id"] for l in tj["langs"][gone:]}
+                orc = ("ok %d" % c["forced"]) if (c["forced"] and c["forced"] in present) else None
+                cases.append(dict(line="t %s %s 0 %s" % (mode, f, doc), oracle=orc, kind="wbxml-custom-table", lang=c["lang"], route=mode + "-" + c["route"], forced=c["forced"]))
     # malformed / truncated headers: model vs C only
     base = wdoc(3, mb(5), 106, b"abc\0", b"\x05")
     for k in range(0, len(base)):
